@@ -175,6 +175,9 @@ func (s *Suite) Run(cases []Case) error {
 			if len(s.Samples) < 6 && (s.Evaluations%997 == 1) {
 				s.Samples = append(s.Samples, c.Line+" => "+c.Impl)
 			}
+			if strings.HasPrefix(c.Impl, "panic") && !c.Spec {
+				s.Violation(c.Line, c.Impl, "no panic", c.Class, "the implementation panicked")
+			}
 			if outs[k] != c.Impl && !(c.Spec && outs[k] == "any") {
 				d := Disagreement{Line: c.Line, Impl: c.Impl, Model: outs[k], Class: c.Class}
 				if c.Spec {
